@@ -40,7 +40,7 @@ def _c12_inner(case, v):
         for item, op in seq:
             if item['k'] == 'group':
                 if has(item['body']): return True
-            elif item.get('text') and '\n' in item['text'] and op == '>': return True
+            elif item.get('text') and ('\n' in item['text'] or '\r' in item['text']) and op == '>': return True
         return False
     return 'seq' in case and has(case['seq'])
 
